@@ -28,6 +28,8 @@ What is proved:
    `Blocks::split` from ANY state that satisfies it (not only reachable ones);
  * `static_merge_applicable` — the constraint a repaired heap hands back joins the heap's block to a
    DIFFERENT block (so `Block::merge` is always the merge of the two blocks of that constraint);
+ * `static_merge_moves_apart` — a merge across a violated constraint moves every variable of the left block left
+   and every variable of the right block right, by `|slack|·W_other/(W_L+W_R)` (unit scales, fresh positions);
  * `static_quiescent_is_optimum` — `Props/C02Model.quiescent_is_optimum` transported to static-solver
    states;
  * witnesses: the static solver ignores `Constraint::equality` (known finding C01-static-eq) — the model
@@ -45,6 +47,7 @@ import AdaptaVerif.Lemmas.VpscStaticOrder
 import AdaptaVerif.Lemmas.VpscStaticRun
 import AdaptaVerif.Lemmas.VpscStaticTotal
 import AdaptaVerif.Lemmas.VpscStaticFuel
+import AdaptaVerif.Lemmas.VpscStaticMove
 import AdaptaVerif.Lemmas.VpscKktOpt
 import AdaptaVerif.Props.C02Model
 import AdaptaVerif.Gen.Comparators
@@ -298,6 +301,102 @@ theorem static_active_tight (st : St) (h : IC st) (ci : Nat) (hci : ci < st.cons
   simp only
   rw [AdaptaVerif.Lemmas.VpscModel.slack_same_block st (st.cons[ci]!) hb]
   exact ht
+
+/-! ## what a merge does to the positions -/
+
+open AdaptaVerif.Lemmas.VpscStaticMove in
+/-- **static_merge_moves_apart**: the merge step of `mergeLeft` / `mergeRight` (and of the incremental solver),
+    `dst->merge(src, c, dist)` in either direction, across a VIOLATED constraint `c` (slack `s < 0`) whose two
+    blocks `L ∋ c.left`, `R ∋ c.right` are different, sit at the positions `updateWeightedPosition` gives them,
+    have exact member lists, unit scales and positive total weights `W_L`, `W_R`: every variable of `L` moves
+    LEFT by `|s|·W_R/(W_L+W_R)` and every variable of `R` moves RIGHT by `|s|·W_L/(W_L+W_R)` — the two blocks
+    move apart by exactly the violation, each in proportion to the other's weight, whichever of the two
+    survives.  (The step of the VPSC `satisfy` argument "the left block only moves left".) -/
+theorem static_merge_moves_apart (st : St) (c dst src : Nat) (d : Rat)
+    (hne : blk st.vars (st.cons[c]!).l ≠ blk st.vars (st.cons[c]!).r)
+    (hsd : (src = blk st.vars (st.cons[c]!).l ∧ dst = blk st.vars (st.cons[c]!).r ∧
+              d = offs st.vars (st.cons[c]!).r - offs st.vars (st.cons[c]!).l - (st.cons[c]!).gap) ∨
+           (src = blk st.vars (st.cons[c]!).r ∧ dst = blk st.vars (st.cons[c]!).l ∧
+              d = -(offs st.vars (st.cons[c]!).r - offs st.vars (st.cons[c]!).l - (st.cons[c]!).gap)))
+    (hd : dst < st.blocks.size)
+    (hA : ∀ x ∈ (st.blocks[dst]!).vars, x < st.vars.size ∧ blk st.vars x = dst ∧ (st.vars[x]!).scale = 1)
+    (hB : ∀ x ∈ (st.blocks[src]!).vars, x < st.vars.size ∧ blk st.vars x = src ∧ (st.vars[x]!).scale = 1)
+    (hA0 : 0 < (st.blocks[dst]!).vars.size) (hB0 : 0 < (st.blocks[src]!).vars.size)
+    (hfd : (st.blocks[dst]!).scale = 1 ∧ (st.blocks[dst]!).posn = (blockPosn st.vars (st.blocks[dst]!).vars).2)
+    (hfs : (st.blocks[src]!).scale = 1 ∧ (st.blocks[src]!).posn = (blockPosn st.vars (st.blocks[src]!).vars).2)
+    (hWA : 0 < wsum st.vars (st.blocks[dst]!).vars) (hWB : 0 < wsum st.vars (st.blocks[src]!).vars)
+    (hviol : rawSlack st c < 0) :
+    (∀ x ∈ (st.blocks[blk st.vars (st.cons[c]!).l]!).vars,
+      (mergeDir st c dst src d).pos x - st.pos x =
+        rawSlack st c * wsum st.vars (st.blocks[blk st.vars (st.cons[c]!).r]!).vars /
+          (wsum st.vars (st.blocks[dst]!).vars + wsum st.vars (st.blocks[src]!).vars) ∧
+      (mergeDir st c dst src d).pos x ≤ st.pos x) ∧
+    (∀ x ∈ (st.blocks[blk st.vars (st.cons[c]!).r]!).vars,
+      (mergeDir st c dst src d).pos x - st.pos x =
+        -(rawSlack st c) * wsum st.vars (st.blocks[blk st.vars (st.cons[c]!).l]!).vars /
+          (wsum st.vars (st.blocks[dst]!).vars + wsum st.vars (st.blocks[src]!).vars) ∧
+      st.pos x ≤ (mergeDir st c dst src d).pos x) := by
+  have hdne : dst ≠ src := by
+    rcases hsd with ⟨a, b, _⟩ | ⟨a, b, _⟩
+    · rw [a, b]; exact fun e => hne e.symm
+    · rw [a, b]; exact hne
+  have hW : 0 < wsum st.vars (st.blocks[dst]!).vars + wsum st.vars (st.blocks[src]!).vars := by linarith
+  obtain ⟨m1, m2⟩ := mergeDir_moves st c dst src d hdne hd hA hB hA0 hB0 hfd hfs (ne_of_gt hWA) (ne_of_gt hWB)
+    (ne_of_gt hW)
+  -- the slack in terms of the two block positions
+  have hslack : rawSlack st c =
+      ((st.blocks[blk st.vars (st.cons[c]!).r]!).scale * (st.blocks[blk st.vars (st.cons[c]!).r]!).posn +
+        offs st.vars (st.cons[c]!).r) - (st.cons[c]!).gap -
+      ((st.blocks[blk st.vars (st.cons[c]!).l]!).scale * (st.blocks[blk st.vars (st.cons[c]!).l]!).posn +
+        offs st.vars (st.cons[c]!).l) := rfl
+  rcases hsd with ⟨rfl, rfl, rfl⟩ | ⟨rfl, rfl, rfl⟩
+  · -- the right block survives
+    have ht : (st.blocks[blk st.vars (st.cons[c]!).r]!).posn - (st.blocks[blk st.vars (st.cons[c]!).l]!).posn +
+        (offs st.vars (st.cons[c]!).r - offs st.vars (st.cons[c]!).l - (st.cons[c]!).gap) = rawSlack st c := by
+      rw [hslack, hfd.1, hfs.1]; ring
+    rw [ht] at m1 m2
+    refine ⟨fun x hx => ?_, fun x hx => ?_⟩
+    · have e := m2 x hx
+      refine ⟨by rw [e], ?_⟩
+      have : rawSlack st c * wsum st.vars (st.blocks[blk st.vars (st.cons[c]!).r]!).vars /
+          (wsum st.vars (st.blocks[blk st.vars (st.cons[c]!).r]!).vars +
+            wsum st.vars (st.blocks[blk st.vars (st.cons[c]!).l]!).vars) ≤ 0 :=
+        div_nonpos_of_nonpos_of_nonneg (mul_nonpos_of_nonpos_of_nonneg (le_of_lt hviol) (le_of_lt hWA)) (le_of_lt hW)
+      linarith
+    · have e := m1 x hx
+      refine ⟨by rw [e]; ring, ?_⟩
+      have : 0 ≤ -(rawSlack st c * wsum st.vars (st.blocks[blk st.vars (st.cons[c]!).l]!).vars) /
+          (wsum st.vars (st.blocks[blk st.vars (st.cons[c]!).r]!).vars +
+            wsum st.vars (st.blocks[blk st.vars (st.cons[c]!).l]!).vars) :=
+        div_nonneg (by have := mul_nonpos_of_nonpos_of_nonneg (le_of_lt hviol) (le_of_lt hWB); linarith) (le_of_lt hW)
+      linarith
+  · -- the left block survives
+    have ht : (st.blocks[blk st.vars (st.cons[c]!).l]!).posn - (st.blocks[blk st.vars (st.cons[c]!).r]!).posn +
+        -(offs st.vars (st.cons[c]!).r - offs st.vars (st.cons[c]!).l - (st.cons[c]!).gap) = -rawSlack st c := by
+      rw [hslack, hfd.1, hfs.1]; ring
+    rw [ht] at m1 m2
+    refine ⟨fun x hx => ?_, fun x hx => ?_⟩
+    · have e := m1 x hx
+      refine ⟨by rw [e]; ring, ?_⟩
+      have : -(-rawSlack st c * wsum st.vars (st.blocks[blk st.vars (st.cons[c]!).r]!).vars) /
+          (wsum st.vars (st.blocks[blk st.vars (st.cons[c]!).l]!).vars +
+            wsum st.vars (st.blocks[blk st.vars (st.cons[c]!).r]!).vars) ≤ 0 := by
+        apply div_nonpos_of_nonpos_of_nonneg _ (le_of_lt hW)
+        have := mul_nonpos_of_nonpos_of_nonneg (le_of_lt hviol) (le_of_lt hWB); linarith
+      linarith
+    · have e := m2 x hx
+      refine ⟨by rw [e], ?_⟩
+      have : 0 ≤ -rawSlack st c * wsum st.vars (st.blocks[blk st.vars (st.cons[c]!).l]!).vars /
+          (wsum st.vars (st.blocks[blk st.vars (st.cons[c]!).l]!).vars +
+            wsum st.vars (st.blocks[blk st.vars (st.cons[c]!).r]!).vars) :=
+        div_nonneg (mul_nonneg (by linarith) (le_of_lt hWA)) (le_of_lt hW)
+      linarith
+
+-- non-vacuity: v0 (desired 3, weight 1) + 1 ≤ v1 (desired 0, weight 2), slack −4: left moves −4·2/3, right +4·1/3
+#guard (let st := St.init #[(3, 1, 1), (0, 2, 1)] #[mkCon 0 1 1 false]
+        let st' := mergeDir st 0 1 0 (-1)
+        rawSlack st 0 == -4 && st'.pos 0 - st.pos 0 == -8/3 && st'.pos 1 - st.pos 1 == 4/3 &&
+        rawSlack st' 0 == 0)
 
 /-! ## optimality at a quiescent state -/
 
